@@ -240,3 +240,54 @@ def call_sanitized(func, args, kwargs):
     mutated = ['arg%d' % i for i, (b, a) in enumerate(zip(before[0], after[0])) if a != b]
     mutated += [k for k in before[1] if before[1][k] != after[1][k]]
     return res, exc, mutated
+
+
+# ---------------------------------------------------------------------------------
+# logical-step bound on the padding loop of get_padded_extrema
+
+class PadStepMonitor:
+    """Replaces the name `np` *inside emd.sift only* by a proxy whose `pad` counts calls between
+    `arm(bound)` and `disarm()`; exceeding the bound raises MonitorAbort, so a padding loop that
+    never reaches both edges is decided on logical steps rather than by a wall-clock timeout."""
+
+    class _Proxy:
+        def __init__(self, real, mon):
+            self.__dict__['_real'] = real
+            self.__dict__['_mon'] = mon
+
+        def __getattr__(self, k):
+            return getattr(self.__dict__['_real'], k)
+
+        def pad(self, *a, **k):
+            m = self.__dict__['_mon']
+            if m.bound is not None:
+                m.calls += 1
+                if m.calls > m.bound:
+                    m.aborted += 1
+                    raise MonitorAbort('np.pad called %d times inside one extrema/envelope call (bound %d)' % (m.calls, m.bound))
+            return self.__dict__['_real'].pad(*a, **k)
+
+    def __init__(self, sift_mod):
+        self.S = sift_mod
+        self.bound = None
+        self.calls = 0
+        self.aborted = 0
+        self.max_calls = 0
+
+    def __enter__(self):
+        self._saved = self.S.np
+        self.S.np = PadStepMonitor._Proxy(self._saved, self)
+        return self
+
+    def __exit__(self, *exc):
+        self.S.np = self._saved
+
+    def arm(self, n):
+        # two np.pad calls (locations, magnitudes) per round; rounds needed <= n + 2
+        self.max_calls = max(self.max_calls, self.calls)
+        self.bound = 2 * (n + 3)
+        self.calls = 0
+
+    def disarm(self):
+        self.max_calls = max(self.max_calls, self.calls)
+        self.bound = None
